@@ -480,6 +480,8 @@ func checkC11(w *World) {
 
 	// R11.6
 	w.settingsOptions(P, r)
+	// the bindings, the context node and the position reach every sub-expression: contexts are complete copies
+	w.include(P, "C01", "R01.13")
 }
 
 func inRepoGlobal(g *ssa.Global) bool {
